@@ -97,6 +97,14 @@ def make_exporter(source, allow, cap):
             return OTelLineageExporter(cap, allowlist=set(allow))
         if source == 'default':      # nothing configured anywhere
             return OTelLineageExporter(cap, allowlist=ofcfg.read_allowlist())
+        if source in ('yaml_nosection', 'yaml_null'):
+            # a configuration file that says nothing usable about safe metrics (only another section / the key with no entries)
+            fd, tmp = tempfile.mkstemp(suffix='.yaml')
+            with os.fdopen(fd, 'w') as fh:
+                fh.write('openlineage:\n  url: http://localhost:5000\n' if source == 'yaml_nosection'
+                         else 'safe_metrics:\n#  - frames_processed\nopenlineage:\n  url: http://localhost:5000\n')
+            os.environ['OF_SAFE_METRICS_FILE'] = tmp
+            return OTelLineageExporter(cap, allowlist=ofcfg.read_allowlist())
         if source == 'env':
             os.environ['OF_SAFE_METRICS'] = ' , '.join(allow) + (' ,' if allow else '')
             return OTelLineageExporter(cap, allowlist=ofcfg.read_allowlist())
@@ -174,6 +182,10 @@ def run(ctx):
     nviol = 0
     # the configuration file starts wide open and is tightened afterwards: every later case must see the file as it is then
     make_exporter('yaml', ['*'], Capture())
+    # ... and an earlier pipeline of this process exported everything: a verdict is the business of one exporter and its own list
+    allnames = sorted({name_of(m) for v in vectors for m in v['metrics']})
+    make_exporter('arg', ['*'], Capture()).export(collect([(n, KINDS[i % len(KINDS)]) for i, n in enumerate(allnames)],
+                                                          {n: [1] for n in allnames}))
     for vi, v in enumerate(vectors):
         allow = [name_of(p) for p in v['allow']]
         names = [name_of(m) for m in v['metrics']]
@@ -183,7 +195,7 @@ def run(ctx):
         md = collect([(n, kinds[n]) for n in names], values)
         srcs = sources if not ctx.quick else (sources[vi % 3],)
         if not allow:
-            srcs = tuple(srcs) + ('default',) if 'default' not in srcs else srcs
+            srcs = tuple(srcs) + ('default', 'yaml_nosection', 'yaml_null')
         for source in srcs:
             cap = Capture()
             exp = make_exporter(source, allow, cap)
